@@ -1,8 +1,11 @@
 (* C02 -- Every individual rewrite rule preserves program behaviour.
    Property theorems only; every proof is `exact <lemma>`; Print Assumptions under each.
    One module per tranche (the tranches define their own MiniPy fragments with overlapping names):
-   Flow = control-flow rules (MiniPyModel / RulesFlowModel). *)
+   Flow = control-flow rules (MiniPyModel / RulesFlowModel);
+   Expr = expression / collection rules (RulesExprModel). *)
 From Coq Require Import List Bool Arith.
+From Coq Require ZArith Lia Permutation.
+Require Pyrefact.RulesExprModel Pyrefact.RulesExprProofs.
 Require Pyrefact.MiniPyModel Pyrefact.MiniPyProofs Pyrefact.RulesFlowModel Pyrefact.RulesFlowProofs
         Pyrefact.RulesFlowProofs2.
 
@@ -19,7 +22,7 @@ Theorem T02_0_blocking_sound :
 Proof. exact anyb_blocks. Qed.
 Print Assumptions T02_0_blocking_sound.
 
-(* T02.1  fixes.remove_dead_ifs (If/While part, after repairs 1ab9418, 725f2e2): for every program, every
+(* T02.1  fixes.remove_dead_ifs (If/While part, after repairs 7d823f2, f407b92): for every program, every
    oracle and every initial state the result runs to the same outcome, trace and environment. *)
 Theorem T02_1_remove_dead_ifs_preserves :
   forall p, equiv p (remove_dead_ifs_model p).
@@ -51,7 +54,7 @@ Example T02_3_partial_nontrivial :
   fir_safe (fuel_of p) p = true /\ fix_if_return_model p <> p.
 Proof. exact fix_if_return_partial_nontrivial. Qed.
 
-(* T02.4  fixes.fix_if_assign (after repair 066a7f0): same value-vs-truthiness defect (finding F02-9). *)
+(* T02.4  fixes.fix_if_assign (after repair 4e708bf): same value-vs-truthiness defect (finding F02-9). *)
 Theorem T02_4_fix_if_assign_refuted :
   exists p, ~ obs_equiv p (fix_if_assign_model p).
 Proof. exact fix_if_assign_refuted. Qed.
@@ -83,7 +86,7 @@ Theorem T02_5_negate_complements :
 Proof. exact negate_complements. Qed.
 Print Assumptions T02_5_negate_complements.
 
-(* T02.6  fixes.delete_unreachable_code (after repairs d6620b5, c9f0b78), on top of T02.0 *)
+(* T02.6  fixes.delete_unreachable_code (after repairs d6620b5, 7d823f2), on top of T02.0 *)
 Theorem T02_6_delete_unreachable_code_preserves :
   forall p, equiv p (delete_unreachable_code_model p).
 Proof. exact delete_unreachable_code_preserves. Qed.
@@ -97,7 +100,7 @@ Theorem T02_7_early_return_preserves :
 Proof. exact early_return_preserves. Qed.
 Print Assumptions T02_7_early_return_preserves.
 
-(* T02.8  fixes.early_continue (both forms, after repair bf06b6c) *)
+(* T02.8  fixes.early_continue (both forms, after repair 437984f) *)
 Theorem T02_8_early_continue_preserves :
   forall p, equiv p (early_continue_model p).
 Proof. exact early_continue_preserves. Qed.
@@ -167,3 +170,246 @@ Proof. exact any_schedule_sound. Qed.
 Print Assumptions T02_11_any_schedule_sound.
 
 End Flow.
+
+Module Expr.
+Import ZArith Lia Permutation.
+Import ListNotations.
+Import Pyrefact.RulesExprModel Pyrefact.RulesExprProofs.
+Open Scope Z_scope.
+
+
+(* ===== C02, expression / collection tranche (theories/RulesExprModel.v, RulesExprProofs.v) =====
+   needs:  Require Import Pyrefact.RulesExprModel Pyrefact.RulesExprProofs.
+   eval w e en tr = Some (value, trace') | None (raises); a world w fixes the results of all user calls and
+   the __eq__ of opaque objects; every theorem quantifies over all worlds, environments and traces. *)
+
+(* fixes.singleton_eq_comparison (repaired: None only) *)
+Theorem T02x_singleton_sound : forall w e e',
+  (forall o, eq_or w o VNone = VBool false) ->
+  rw_singleton e = Some e' ->
+  forall en tr, eval w e' en tr = eval w e en tr.
+Proof. exact singleton_sound. Qed.
+Print Assumptions T02x_singleton_sound.
+
+Theorem T02x_singleton_refuted_custom_eq :
+  exists w e e' en, rw_singleton e = Some e' /\ eval w e' en [] <> eval w e en [].
+Proof. exact singleton_refuted_custom_eq. Qed.
+Print Assumptions T02x_singleton_refuted_custom_eq.
+
+Theorem T02x_singleton_old_refuted :
+  exists e e' en, rw_singleton_old e = Some e' /\
+    (forall w, eval w e en [] = Some (VBool true, [])) /\ (forall w, eval w e' en [] = Some (VBool false, [])).
+Proof. exact singleton_old_refuted. Qed.
+Print Assumptions T02x_singleton_old_refuted.
+
+(* fixes.remove_duplicate_set_elts *)
+Theorem T02x_dup_set_sound : forall w e e',
+  rw_dup_set e = Some e' -> forall en tr, eval w e' en tr = eval w e en tr.
+Proof. exact dup_set_sound. Qed.
+Print Assumptions T02x_dup_set_sound.
+
+(* fixes.remove_duplicate_dict_keys (repaired) *)
+Theorem T02x_dup_dict_sound : forall w e e',
+  rw_dup_dict e = Some e' -> forall en tr r, eval w e en tr = Some r -> eval w e' en tr = Some r.
+Proof. exact dup_dict_sound. Qed.
+Print Assumptions T02x_dup_dict_sound.
+
+(* the dict law behind it: writes to a key that is already present can be hoisted *)
+Theorem T02x_dict_update_hoist : forall k ps E, dict_has E k = true ->
+  dict_update E ps = dict_update (match lastv k ps with Some x => dict_set E k x | None => E end) (filt k ps).
+Proof. exact dict_update_hoist. Qed.
+Print Assumptions T02x_dict_update_hoist.
+
+(* fixes.redundant_enumerate (repaired) *)
+Theorem T02x_enumerate_sound : forall w e e',
+  rw_enumerate e e = Some e' ->
+  (match e with EComp _ _ _ _ (EBi _ [it]) _ => is_star it = false | _ => True end) ->
+  forall en tr, eval w e' en tr = eval w e en tr.
+Proof. exact enumerate_sound. Qed.
+Print Assumptions T02x_enumerate_sound.
+
+(* the frame lemma behind it: an expression that never reads `_` does not depend on its binding *)
+Theorem T02x_underscore_frame : forall w e, reads_us e = false ->
+  forall en1 en2, agree_off en1 en2 -> forall tr, eval w e en1 tr = eval w e en2 tr.
+Proof. exact frame. Qed.
+Print Assumptions T02x_underscore_frame.
+
+(* fixes.unused_zip_args (repaired): refuted in general, right for equal lengths *)
+Theorem T02x_zip_refuted :
+  exists e e' en, rw_zip e e = Some e' /\
+    forall w, eval w e en [] = Some (VList [], []) /\ eval w e' en [] = Some (VList [VInt 1], []).
+Proof. exact zip_refuted. Qed.
+Print Assumptions T02x_zip_refuted.
+
+Theorem T02x_zip2_partial : forall w k elt dval x a b ifs,
+  let e := EComp k elt dval (TTup [underscore; x]) (EBi BZip [a; b]) ifs in
+  let e' := EComp k elt dval (TName x) b ifs in
+  reads_us e = false -> simple a = true -> plain b = true -> Nat.eqb x underscore = false ->
+  rw_zip e e = Some e' /\
+  forall en tr va tra vb tr1,
+    eval w a en tr = Some (va, tra) -> eval w b en tr = Some (vb, tr1) -> same_len va vb = true ->
+    eval w e' en tr = eval w e en tr.
+Proof. exact zip2_partial. Qed.
+Print Assumptions T02x_zip2_partial.
+
+(* performance.remove_redundant_chained_calls (repaired) *)
+Theorem T02x_chain1_exact : forall w e e',
+  rw_chain1 e = Some e' ->
+  (match e with EBi outer (a0 :: _) => strip_exact outer a0 | _ => false end) = true ->
+  forall en tr r, eval w e en tr = Some r -> eval w e' en tr = Some r.
+Proof. exact chain1_exact. Qed.
+Print Assumptions T02x_chain1_exact.
+
+Theorem T02x_chain1_sorted_partial : forall w inner x kws,
+  inner = BReversed \/ inner = BSorted -> plain x = true -> forallb is_kw kws = true ->
+  forall en tr v tr1, eval w x en tr = Some (v, tr1) -> items_indist v = true ->
+  forall r, eval w (EBi BSorted (EBi inner [x] :: kws)) en tr = Some r ->
+            eval w (EBi BSorted (x :: kws)) en tr = Some r.
+Proof. exact chain1_sorted_partial. Qed.
+Print Assumptions T02x_chain1_sorted_partial.
+
+Theorem T02x_chain1_sorted_reversed_refuted :
+  exists e e' en, rw_chain1 e = Some e' /\
+    forall w, eval w e en [] = Some (VList [VInt 1; VBool true], []) /\
+              eval w e' en [] = Some (VList [VBool true; VInt 1], []).
+Proof. exact chain1_sorted_reversed_refuted. Qed.
+Print Assumptions T02x_chain1_sorted_reversed_refuted.
+
+Theorem T02x_chain1_set_reversed_refuted :
+  exists e e' en, rw_chain1 e = Some e' /\
+    forall w, eval w e en [] = Some (VSet [VInt 1], []) /\ eval w e' en [] = Some (VSet [VBool true], []).
+Proof. exact chain1_set_reversed_refuted. Qed.
+Print Assumptions T02x_chain1_set_reversed_refuted.
+
+(* the list laws behind them *)
+Theorem T02x_sort_perm_invariant : forall l l', Permutation l l' -> indist l -> sort l = sort l'.
+Proof. exact sort_perm_inv. Qed.
+Print Assumptions T02x_sort_perm_invariant.
+
+Theorem T02x_sort_idempotent : forall l, sort (sort l) = sort l.
+Proof. exact sort_sort. Qed.
+Print Assumptions T02x_sort_idempotent.
+
+Theorem T02x_sum_perm_invariant : forall l l', Permutation l l' -> sum_num l = sum_num l'.
+Proof. exact sum_num_perm. Qed.
+Print Assumptions T02x_sum_perm_invariant.
+
+Theorem T02x_set_idempotent : forall l s, mkset l = Some (VSet s) -> mkset s = Some (VSet s).
+Proof. exact mkset_idem. Qed.
+Print Assumptions T02x_set_idempotent.
+
+Theorem T02x_chain2_sound : forall w e e',
+  rw_chain2 e = Some e' -> forall en tr r, eval w e en tr = Some r -> eval w e' en tr = Some r.
+Proof. exact chain2_sound. Qed.
+Print Assumptions T02x_chain2_sound.
+
+Theorem T02x_chain3_refuted_type : forall w x en tr r t r' t', plain x = true ->
+  eval w (rev_sorted x) en tr = Some (r, t) -> eval w (sorted_rev x) en tr = Some (r', t') -> r <> r'.
+Proof. exact chain3_refuted_type. Qed.
+Print Assumptions T02x_chain3_refuted_type.
+
+Theorem T02x_chain3_partial_items : forall w x en tr v tr1 r t, plain x = true ->
+  eval w x en tr = Some (v, tr1) -> items_indist v = true ->
+  eval w (rev_sorted x) en tr = Some (r, t) ->
+  exists r', eval w (sorted_rev x) en tr = Some (r', t) /\ items_of r' = items_of r.
+Proof. exact chain3_partial_items. Qed.
+Print Assumptions T02x_chain3_partial_items.
+
+Theorem T02x_chain3_refuted_stability :
+  exists x en, plain x = true /\
+    forall w, eval w (rev_sorted x) en [] = Some (VIter [VInt 1; VBool true], []) /\
+              eval w (sorted_rev x) en [] = Some (VList [VBool true; VInt 1], []).
+Proof. exact chain3_refuted_stability. Qed.
+Print Assumptions T02x_chain3_refuted_stability.
+
+(* fixes.remove_redundant_chain_casts / remove_redundant_comprehension_casts (repaired) *)
+Theorem T02x_chain_casts_sound : forall w e e',
+  rw_chain_casts e = Some e' -> forall en tr r, eval w e en tr = Some r -> eval w e' en tr = Some r.
+Proof. exact chain_casts_sound. Qed.
+Print Assumptions T02x_chain_casts_sound.
+
+Theorem T02x_comp_casts_sound : forall w e e',
+  rw_comp_casts e = Some e' ->
+  (match e with EBi BSet [EComp CDict _ _ _ _ _] => false | _ => true end) = true ->
+  forall en tr, eval w e' en tr = eval w e en tr.
+Proof. exact comp_casts_sound. Qed.
+Print Assumptions T02x_comp_casts_sound.
+
+(* fixes.replace_negated_numeric_comparison *)
+Theorem T02x_negated_sound : forall w e e', bool_eq w ->
+  rw_negated e = Some e' -> forall en tr, eval w e' en tr = eval w e en tr.
+Proof. exact negated_sound. Qed.
+Print Assumptions T02x_negated_sound.
+
+(* fixes.replace_functions_with_literals, fixes.replace_redundant_starred *)
+Theorem T02x_literals_sound : forall w e e',
+  rw_literals e = Some e' -> forall en tr, eval w e' en tr = eval w e en tr.
+Proof. exact literals_sound. Qed.
+Print Assumptions T02x_literals_sound.
+
+Theorem T02x_starred_sound : forall w e e',
+  rw_starred e = Some e' -> forall en tr, eval w e' en tr = eval w e en tr.
+Proof. exact starred_sound. Qed.
+Print Assumptions T02x_starred_sound.
+
+(* fixes.simplify_dict_unpacks, fixes.simplify_collection_unpacks (repaired) *)
+Theorem T02x_dict_unpacks_sound : forall w e e',
+  rw_dict_unpacks e = Some e' -> forall en tr r, eval w e en tr = Some r -> eval w e' en tr = Some r.
+Proof. exact dict_unpacks_sound. Qed.
+Print Assumptions T02x_dict_unpacks_sound.
+
+Theorem T02x_unpacks_sound : forall w e e',
+  rw_unpacks e = Some e' -> forall en tr r, eval w e en tr = Some r -> eval w e' en tr = Some r.
+Proof. exact unpacks_sound. Qed.
+Print Assumptions T02x_unpacks_sound.
+
+(* the set / dict laws behind them *)
+Theorem T02x_set_absorb : forall l acc s,
+  fold_left set_add (fold_left set_add l acc) s = fold_left set_add l (fold_left set_add acc s).
+Proof. exact set_absorb. Qed.
+Print Assumptions T02x_set_absorb.
+
+Theorem T02x_dict_merge : forall d'' d d0, wfd d0 ->
+  dict_update d (dict_update d0 d'') = dict_update (dict_update d d0) d''.
+Proof. exact update_update. Qed.
+Print Assumptions T02x_dict_merge.
+
+(* set({k: v for ...}) -> {k for ...} (the remaining case of remove_redundant_comprehension_casts) *)
+Theorem T02x_comp_casts_set_dict : forall w elt dval t it ifs,
+  simple dval = true ->
+  rw_comp_casts (EBi BSet [EComp CDict elt dval t it ifs]) = Some (EComp CSet elt (EConst ANone) t it ifs) /\
+  forall en tr r, eval w (EBi BSet [EComp CDict elt dval t it ifs]) en tr = Some r ->
+                  eval w (EComp CSet elt (EConst ANone) t it ifs) en tr = Some r.
+Proof. exact comp_casts_set_dict. Qed.
+Print Assumptions T02x_comp_casts_set_dict.
+
+(* congruence: a rule that is right at the root and yields proper expressions is right when applied
+   bottom-up at every node (rw_all), as the walker of the real rule does *)
+Theorem T02x_lift_sound : forall w (rw : expr -> option expr),
+  (forall a a', rw a = Some a' ->
+     wrapper a' = false /\ forall en tr r, eval w a en tr = Some r -> eval w a' en tr = Some r) ->
+  forall e en tr r, eval w e en tr = Some r -> eval w (rw_all (lift rw) e) en tr = Some r.
+Proof. exact lift_sound. Qed.
+Print Assumptions T02x_lift_sound.
+
+Theorem T02x_dup_set_everywhere : forall w e en tr r,
+  eval w e en tr = Some r -> eval w (rw_all (lift rw_dup_set) e) en tr = Some r.
+Proof. exact dup_set_everywhere. Qed.
+Print Assumptions T02x_dup_set_everywhere.
+
+Theorem T02x_dup_dict_everywhere : forall w e en tr r,
+  eval w e en tr = Some r -> eval w (rw_all (lift rw_dup_dict) e) en tr = Some r.
+Proof. exact dup_dict_everywhere. Qed.
+Print Assumptions T02x_dup_dict_everywhere.
+
+Theorem T02x_unpacks_everywhere : forall w e en tr r,
+  eval w e en tr = Some r -> eval w (rw_all (lift rw_unpacks) e) en tr = Some r.
+Proof. exact unpacks_everywhere. Qed.
+Print Assumptions T02x_unpacks_everywhere.
+
+Theorem T02x_dict_unpacks_everywhere : forall w e en tr r,
+  eval w e en tr = Some r -> eval w (rw_all (lift rw_dict_unpacks) e) en tr = Some r.
+Proof. exact dict_unpacks_everywhere. Qed.
+Print Assumptions T02x_dict_unpacks_everywhere.
+
+End Expr.
